@@ -54,6 +54,8 @@ class Interp:
             return v != 0
         if isinstance(v, View):
             return simp(zint(v.length) != 0)
+        if isinstance(v, OptInt):
+            return And(Not(v.isnone), zint(v.val) != 0)
         if isinstance(v, SymStr):
             if v.length is None:
                 raise Unsupported('truth of opaque string')
@@ -304,7 +306,17 @@ class Interp:
         return None
 
     # ------------------------------------------------------------------ operations
+    def opt_unwrap(self, v, node=None):
+        """use of an Optional[int] as a value: forks the None case"""
+        if not isinstance(v, OptInt):
+            return v
+        if self.run.branch(v.isnone, 'optional.is_none'):
+            return None
+        return v.val
+
     def binop(self, op, a, b, node=None):
+        if isinstance(a, OptInt) or isinstance(b, OptInt):
+            a, b = self.opt_unwrap(a, node), self.opt_unwrap(b, node)
         if isinstance(a, View) or isinstance(b, View):
             if isinstance(op, ast.Add) and isinstance(a, View) and isinstance(b, View):
                 return self.concat(a, b)
@@ -399,6 +411,14 @@ class Interp:
                       z3.ForAll([k], z3.Implies(z3.And(k >= 0, k < zint(a.length)), a.at(h, k) == b.at(h, k))))
 
     def compare(self, op, a, b, node=None):
+        if isinstance(op, (ast.Is, ast.IsNot)) and (isinstance(a, OptInt) or isinstance(b, OptInt)):
+            o, other = (a, b) if isinstance(a, OptInt) else (b, a)
+            if other is None:
+                return o.isnone if isinstance(op, ast.Is) else Not(o.isnone)
+            r = o is other
+            return r if isinstance(op, ast.Is) else not r
+        if isinstance(a, OptInt) or isinstance(b, OptInt):
+            a, b = self.opt_unwrap(a, node), self.opt_unwrap(b, node)
         if isinstance(op, (ast.Is, ast.IsNot)):
             if a is None or b is None or isinstance(a, bool) or isinstance(b, bool):
                 r = a is b
